@@ -85,14 +85,7 @@ spec fn all_ok(s: Seq<Item>) -> bool { forall|i: int| 0 <= i < s.len() ==> (#[tr
 spec fn vals(s: Seq<Item>) -> Seq<InternalValue> { Seq::new(s.len(), |i: int| s[i]->Ok_0) }
 spec fn krank(it: Item) -> int { it->Ok_0.key.user_key.rank() }
 
-/// length of the maximal prefix of Ok entries with key rank k
-/// entries `drain_key(key, keep_weak_tombstones, keep_tombstones)` stops in front of
-spec fn kept(v: InternalValue, kw: bool, kt: bool) -> bool { (kt && dead(v)) || (kw && v.key.value_type == ValueType::WeakTombstone) }
-spec fn same_key_prefix(s: Seq<Item>, k: int, kw: bool, kt: bool) -> nat
-    decreases s.len()
-{
-    if s.len() == 0 { 0 } else if s[0] is Ok && krank(s[0]) == k && !kept(s[0]->Ok_0, kw, kt) { 1 + same_key_prefix(s.skip(1), k, kw, kt) } else { 0 }
-}
+//@ INCLUDE prelude/drain_specs.rs
 
 
 spec fn keys_sorted(s: Seq<Item>) -> bool {
@@ -228,20 +221,10 @@ impl<F: StreamFilter> CompactionStream<F> {
         && self.zero_seqnos == o.zero_seqnos && self.has_cb() == o.has_cb()
     }
 
+    // contract proved from the real body in unit `drain_key` (C13.4, C01.35); assumed here
     #[verifier::external_body]
     fn drain_key(&mut self, key: &UserKey, keep_weak_tombstones: bool, keep_tombstones: bool) -> (r: Result<(), Error>)
-        ensures
-            final(self).same_cfg(old(self)),
-            ({
-                let s = old(self).inner.rest();
-                let n = same_key_prefix(s, key.rank(), keep_weak_tombstones, keep_tombstones) as int;
-                if n < s.len() && s[n] is Err {
-                    r is Err && r->Err_0 == s[n]->Err_0 && final(self).inner.rest() == s.skip(n + 1)
-                } else {
-                    r is Ok && final(self).inner.rest() == s.skip(n)
-                    && (old(self).has_cb() ==> final(self).log() == old(self).log() + vals(s.take(n)))
-                }
-            }),
+//@ INCLUDE prelude/drain_key_ensures.rs
     { unimplemented!() }
 
 //@ FROM src/compaction/stream.rs :: Iterator for CompactionStream :: fn next :: OBL C17.1, C09.1
